@@ -209,8 +209,10 @@ def make_flow_populate(N, drawsize, accumulate, loops):
         worst = None
         if ctx.mode == "sym":
             _symnp.symrandom.reset()
-        # one real draw populates the pool and hands out the first point
+        # populate the pool (what the first draw does), look at the hand-out order, then draw
         try:
+            fp.populate(worst, N=fp.poolsize)
+            ctx.prove(sorted(int(i) for i in fp.indices) == list(range(len(fp.samples))), "the hand-out order is a permutation of the pool (each point exactly once)")
             first = fp.draw(worst)
         except IndexError as e:
             # Observed robustness defect OUTSIDE this property (recorded in DESIGN.md): when the flow returns a non-finite
